@@ -1203,6 +1203,27 @@ theorem frame_local_cap (m n i : Nat) (hi : i < m) :
         simp only [h1, if_false] at this
         simp only [allocMany, allocAbstractVar, hn, if_false, List.getElem?_cons_succ, this, h2]
 
+/-- every frame index handed out fits the one-byte SIGNED immediate of `frame_dig` / `frame_bury` (at most 127), whatever number of
+    cells the proto already holds (the reserved output cell of an ABI routine included) and however many allocations follow -/
+theorem frame_index_fits (m n : Nat) (k : Nat) (h : VarAlloc.frame k ∈ allocMany m (some n)) : n ≤ k ∧ k ≤ 127 := by
+  obtain ⟨i, hi, hget⟩ := List.getElem_of_mem h
+  have hlen : i < m := by
+    have : (allocMany m (some n)).length = m := by
+      clear h hget hi
+      induction m generalizing n with
+      | zero => simp [allocMany]
+      | succ m ih =>
+        by_cases hn : n + 1 ≤ MAX_FRAME_LOCAL_VARS <;> simp [allocMany, allocAbstractVar, hn, ih]
+    omega
+  have := frame_local_cap m n i hlen
+  rw [List.getElem?_eq_getElem hi, hget] at this
+  by_cases hc : n + i < MAX_FRAME_LOCAL_VARS
+  · simp only [hc, if_true, Option.some.injEq, VarAlloc.frame.injEq] at this
+    subst this
+    simp only [MAX_FRAME_LOCAL_VARS] at hc
+    omega
+  · simp [hc] at this
+
 /-- outside a subroutine evaluation (no current proto) every allocation is a scratch variable -/
 theorem alloc_without_proto (m i : Nat) (hi : i < m) : (allocMany m none)[i]? = some .scratch := by
   induction m generalizing i with
